@@ -153,6 +153,10 @@ def run(rep):
                 k = mkkey(rule, fn["file"], fn["name"], cons)
                 if k in ASSUMED:
                     rep.assumed(rule, fn["file"], fn["name"], cons, ASSUMED[k], line=o.line)
+                elif (o.detail or "").startswith("unknown array"):
+                    # the analysis lost track of which buffer the pointer refers to (a walking pointer, a pointer chosen at run time): nothing is
+                    # known about the access, in either direction
+                    rep.undecided(rule, fn["file"], fn["name"], cons, "the buffer behind this pointer is not tracked by the range analysis", line=o.line)
                 else:
                     rep.violation(rule, fn["file"], fn["name"], cons, f"not provable: {o.detail}", line=o.line)
     rep.floor("kernel obligations", nobl, 900)
@@ -433,9 +437,13 @@ def run(rep):
                     unk = sorted(set().union(*[x.symbols() for x in polys_]) & missing)
                     why = ("unknown: " + ", ".join(unk)) if any(x is None for x in ps) else \
                         "; ".join(f"{env.canon(x)} >= 0" for x in ps) + " not provable"
+            if not done and s.env is not None and s.env.vars.get("@opaque_guards"):
+                rep.undecided(rule, where, fq, cons, f"{r['text']}; not established by what this reader understands of the caller, which has a raising guard on shapes "
+                              f"it could not interpret: `{s.env.vars['@opaque_guards'][0]}`", line=s.call.lineno)
+                done = True
             if not done:
                 rep.violation(rule, where, fq, cons,
-                              f"{r['text']}; not established by the shim's asserts nor by the caller ({why})",
+                              f"{r['text']}; not established by the shim's asserts nor by the caller ({why})" + (f" [kernel in {fns[kq]['file']}]" if kq in fns else ""),
                               line=s.call.lineno)
     # shims nobody calls from Python: residuals must be empty (they are directly callable)
     for (cm, name), (sh, res) in residuals.items():
